@@ -81,3 +81,34 @@ Proof.
   exists [EStopCall 0; EFlWakeQuit 0; EStopClose 0; EStopCall 1]. eexists.
   split; [vm_compute; reflexivity|]. split; reflexivity.
 Qed.
+
+(* F-C17-3 (fixed): before the repair policyConnPool had no closed flag; addHost after Close created
+   (and filled) a host pool that nobody would ever close.  [pp_add_prefix] is the old addHost. *)
+Definition pp_add_prefix (s : ppool) (h : nat) : option ppool :=
+  match alookup h (pp_map s) with
+  | Some _ => Some s
+  | None => Some (mkPP (pp_closed s) (pp_map s ++ [(h, pp_next s)]) (pp_detached s) (pp_closedpools s) (S (pp_next s)))
+  end.
+
+Theorem pool_created_after_close_before_fix :
+  exists s0 sold snew, pprun ppool_init [PPAdd 1; PPClose] = Some s0
+    /\ pp_add_prefix s0 2 = Some sold /\ pp_closed sold = true /\ pp_map sold = [(2%nat, 1%nat)]
+    /\ ~ In 1%nat (pp_closedpools sold) /\ ~ In 1%nat (pp_detached sold)
+    /\ ppstep s0 (PPAdd 2) = Some snew /\ pp_map snew = [].
+Proof.
+  eexists. eexists. eexists. split; [vm_compute; reflexivity|]. split; [vm_compute; reflexivity|].
+  simpl. repeat split; try reflexivity; intuition discriminate.
+Qed.
+
+(* Model-level observation (control.go; not reproduced through a session, the window is the few
+   instructions between controlConn.close and s.cancel): a reconnect that is inside setupConn when
+   close() runs stores its new connection afterwards; nobody closes it.  "No reconnect creates a
+   connection that survives Close" is therefore false for the model as it stands; what holds is
+   C17_control_after_close (nothing is connected once the context is cancelled; reconnects started
+   after close() do nothing) and C17_reconnect_terminates. *)
+Theorem control_conn_survives_close_refuted :
+  exists s, krun kctl_init [KRecStart 0; KRecCheck 0; KRecCAS 0; KDialOk 0;   (* reconnect: new connection 1, in setupConn *)
+                            KCloseState; KCloseConn; KCancel;                   (* Session.Close: control.close(), ..., cancel *)
+                            KSetupOk 0; KRefreshDone 0] = Some s               (* setupConn stores connection 1 *)
+    /\ k_recs s = [] /\ k_closing s = true /\ k_cancelled s = true /\ k_open s = [1%nat] /\ k_late s = true.
+Proof. eexists. split; [vm_compute; reflexivity|]. repeat split; reflexivity. Qed.
